@@ -211,20 +211,25 @@ class C07(Check):
     def check_dummy(self, case, out):
         spec = case['spec']
         K = len(spec['surfs'])
-        i = case['s'] % K
-        a_s = spec['surfs'][i]
-        gap = a_s['t']
-        nxt = spec['surfs'][i + 1] if i + 1 < K else None
-        h = a_s.get('hd') or 1.0
-        sag_a = abs(GL._sag(a_s['R'], a_s['k'], min(1.5 * h, 0.8 * abs(GL.fl(a_s['R'])))) if a_s['R'] != GL.INF else 0.0)
-        sag_b = 0.0
-        if nxt is not None and nxt['R'] != GL.INF:
-            sag_b = abs(GL._sag(nxt['R'], nxt['k'], min(1.5 * h, 0.8 * abs(GL.fl(nxt['R'])))))
-        tilted = any(q['rx'] or q['ry'] for q in ([a_s] + ([nxt] if nxt else [])))
-        non_std = a_s['type'] != 'standard' or (nxt is not None and nxt['type'] != 'standard')
-        if abs(gap) < 4 * (sag_a + sag_b) + 1e-6 or tilted or non_std:
+
+        def loose(i):
+            a_s = spec['surfs'][i]
+            nxt = spec['surfs'][i + 1] if i + 1 < K else None
+            h = a_s.get('hd') or 1.0
+            sag_a = abs(GL._sag(a_s['R'], a_s['k'], min(1.5 * h, 0.8 * abs(GL.fl(a_s['R'])))) if a_s['R'] != GL.INF else 0.0)
+            sag_b = 0.0
+            if nxt is not None and nxt['R'] != GL.INF:
+                sag_b = abs(GL._sag(nxt['R'], nxt['k'], min(1.5 * h, 0.8 * abs(GL.fl(nxt['R'])))))
+            tilted = any(q['rx'] or q['ry'] for q in ([a_s] + ([nxt] if nxt else [])))
+            non_std = a_s['type'] != 'standard' or (nxt is not None and nxt['type'] != 'standard')
+            return not (abs(a_s['t']) < 4 * (sag_a + sag_b) + 1e-6 or tilted or non_std)
+        cand = [i for i in range(K) if loose(i)]
+        if not cand:
             out.cls('gap_too_tight_for_dummy')
             return
+        i = cand[case['s'] % len(cand)]
+        a_s = spec['surfs'][i]
+        gap = a_s['t']
         tw = copy.deepcopy(spec)
         t1 = gap * case['frac']
         tw['surfs'][i]['t'] = t1
